@@ -643,27 +643,8 @@ func (e *Engine) enterLoop(fr *frame, li *loopInfo, reach string, heap Heap, con
 			fv = SliceVal{sv.Arr, bvLit(0, 64), sv.Len}
 		}
 		if nv, ok := fv.(SliceVal); ok && appendOnlyInLoop(pv, li) {
-			// the variable only grows by append(v, ...) in this loop and nothing in the loop writes
-			// elements of slices of this type in place: at every iteration it still starts with the
-			// elements it had when the loop was entered (assumed: semantics of append)
-			elemT := under(et).(*types.Slice).Elem()
-			inPlace := false
-			e.forLeaves(types.NewSlice(elemT), []pathElem{{field: -1}}, elemT, func(path []pathElem, suffix, leaf string, lt types.Type) {
-				if e.inModSet(keys, e.comp(types.NewSlice(elemT), path, suffix, leaf).key) {
-					inPlace = true
-				}
-			})
-			if ov, ok := e.load(h, e.asPtr(addr, pv.Type()), et).(SliceVal); ok && !inPlace {
-				e.sc.assume(implies(reach, app("bvsge", nv.Len, ov.Len)))
-				e.forLeaves(types.NewSlice(elemT), []pathElem{{field: -1}}, elemT, func(path []pathElem, suffix, leaf string, lt types.Type) {
-					c := e.comp(types.NewSlice(elemT), path, suffix, leaf)
-					cur := e.heapGet(h, c)
-					i := e.sc.freshName("pi")
-					body := implies(and(reach, app("bvsle", bvLit(0, 64), i), app("bvslt", i, ov.Len)),
-						eq(sel(sel(cur, nv.Arr), app("bvadd", nv.Off, i)), sel(sel(cur, ov.Arr), app("bvadd", ov.Off, i))))
-					e.sc.addTagged(fmt.Sprintf("L%d.prefix", e.loopOrdinal(fr, li)), fmt.Sprintf("(assert (forall ((%s %s)) %s))", i, SI64, body))
-				})
-				e.warnOnce("append-only slice variables: inside a loop they keep the elements they had at loop entry (assumed from the semantics of append; checked syntactically: every store in the loop is v = append(v, ...), no element of that slice type is written in place)")
+			if ov, ok := e.load(h, e.asPtr(addr, pv.Type()), et).(SliceVal); ok {
+				e.assumePrefix(fr, li, keys, h, reach, under(et).(*types.Slice).Elem(), nv, ov)
 			}
 		}
 		e.store(h, e.asPtr(addr, pv.Type()), et, fv)
@@ -736,6 +717,11 @@ func (e *Engine) enterLoop(fr *frame, li *loopInfo, reach string, heap Heap, con
 		e.assumeBelow(v, phi.Type(), li.base)
 		hv[phi] = v
 		fr.vals[phi] = v
+		if nv, ok := v.(SliceVal); ok {
+			if ov, ok := entry[phi].(SliceVal); ok && phiAppendOnly(phi, li) {
+				e.assumePrefix(fr, li, keys, h, hreachOrReach(reach), under(phi.Type()).(*types.Slice).Elem(), nv, ov)
+			}
+		}
 	}
 	// structural invariant of go/ssa's range-over-slice lowering: the index phi k
 	// satisfies -1 <= k < len (k+1 is the number of completed iterations)
@@ -936,6 +922,77 @@ func (e *Engine) assumeBelow(v Val, t types.Type, base string) {
 
 // sliceOffZero: every value that can flow into v is a slice that starts at offset
 // 0 of its backing array (nil, make, append results, or a phi of such).
+func hreachOrReach(r string) string { return r }
+
+// assumePrefix: a slice variable that only grows by append in the loop, while nothing in the loop
+// writes elements of slices of this type in place, still starts with the elements it had when
+// the loop was entered (assumed: semantics of append).
+func (e *Engine) assumePrefix(fr *frame, li *loopInfo, keys map[string]bool, h Heap, reach string, elemT types.Type, nv, ov SliceVal) {
+	inPlace := false
+	e.forLeaves(types.NewSlice(elemT), []pathElem{{field: -1}}, elemT, func(path []pathElem, suffix, leaf string, lt types.Type) {
+		if e.inModSet(keys, e.comp(types.NewSlice(elemT), path, suffix, leaf).key) {
+			inPlace = true
+		}
+	})
+	if inPlace {
+		return
+	}
+	e.sc.assume(implies(reach, app("bvsge", nv.Len, ov.Len)))
+	tag := fmt.Sprintf("L%d.prefix", e.loopOrdinal(fr, li))
+	e.forLeaves(types.NewSlice(elemT), []pathElem{{field: -1}}, elemT, func(path []pathElem, suffix, leaf string, lt types.Type) {
+		c := e.comp(types.NewSlice(elemT), path, suffix, leaf)
+		cur := e.heapGet(h, c)
+		i := e.sc.freshName("pi")
+		body := implies(and(reach, app("bvsle", bvLit(0, 64), i), app("bvslt", i, ov.Len)),
+			eq(sel(sel(cur, nv.Arr), app("bvadd", nv.Off, i)), sel(sel(cur, ov.Arr), app("bvadd", ov.Off, i))))
+		e.sc.addTagged(tag, fmt.Sprintf("(assert (forall ((%s %s)) %s))", i, SI64, body))
+	})
+	e.warnOnce("append-only slice variables: inside a loop they keep the elements they had at loop entry (assumed from the semantics of append; checked syntactically: every assignment in the loop is v = append(v, ...), no element of that slice type is written in place)")
+}
+
+// phiAppendOnly: the loop-carried slice value phi changes in the loop only by v = append(v, ...).
+func phiAppendOnly(phi *ssa.Phi, li *loopInfo) bool {
+	seen := map[ssa.Value]bool{}
+	var chain func(v ssa.Value) bool
+	chain = func(v ssa.Value) bool {
+		if v == phi {
+			return true
+		}
+		if seen[v] {
+			return true
+		}
+		seen[v] = true
+		switch x := v.(type) {
+		case *ssa.Phi:
+			if !li.blocks[x.Block()] {
+				return false
+			}
+			for _, ed := range x.Edges {
+				if !chain(ed) {
+					return false
+				}
+			}
+			return true
+		case *ssa.Call:
+			if b, ok := x.Call.Value.(*ssa.Builtin); ok && b.Name() == "append" && len(x.Call.Args) > 0 && li.blocks[x.Block()] {
+				return chain(x.Call.Args[0])
+			}
+		}
+		return false
+	}
+	any := false
+	for k, ed := range phi.Edges {
+		if !li.blocks[phi.Block().Preds[k]] {
+			continue // entry edge
+		}
+		any = true
+		if !chain(ed) {
+			return false
+		}
+	}
+	return any
+}
+
 // appendOnlyInLoop: every store to the slice variable cell pv inside the loop (its blocks and
 // the functions nested in it) is  pv = append(pv, ...).
 func appendOnlyInLoop(pv ssa.Value, li *loopInfo) bool {
